@@ -6,6 +6,7 @@
 import MajoranaVerif.Model.Mvp60Class
 import MajoranaVerif.Proofs.Mvp60Fast
 import MajoranaVerif.Proofs.Mvp60SlWitness
+import MajoranaVerif.Proofs.Refine
 open GoInt
 
 namespace Proofs.Mvp60JumpWitness
@@ -125,7 +126,7 @@ theorem early_class : RegOnlyWf earlyApp = true ∧ RegOnly earlyApp = true := b
 
 /-- MVP-1 returns with `s0 = 4` -/
 theorem early_seq : obsR (Model.Seq.runMvp1 earlyApp ⟨ctx0, 0⟩ 100).halt (Model.Seq.runMvp1 earlyApp ⟨ctx0, 0⟩ 100).final.ctx =
-    (some .ret, [0#32, 4#32, 0#32, 4#32, 0#32, 0#32]) := by decide +kernel
+    (some .ret, [0#32, 4#32, 0#32, 4#32, 1#32, 0#32]) := by decide +kernel
 
 /-- MVP-6.0 with one unit ends "past the end" in the second round: `s0 = 2` -/
 theorem early_p1 : obsR (run earlyApp ctx0 1 1 20000).halt (run earlyApp ctx0 1 1 20000).final.ctx =
@@ -134,6 +135,47 @@ theorem early_p1 : obsR (run earlyApp ctx0 1 1 20000).halt (run earlyApp ctx0 1 
 
 theorem early_p2 : obsR (run earlyApp ctx0 2 2 20000).halt (run earlyApp ctx0 2 2 20000).final.ctx =
     (some .offEnd, [0#32, 2#32, 0#32, 4#32, 0#32, 0#32]) := by
+  rw [← Proofs.Mvp60Fast.runFast_eq_run]; decide +kernel
+
+theorem early_p1_halt : (run earlyApp ctx0 1 1 20000).halt = some .offEnd := by
+  rw [← Proofs.Mvp60Fast.runFast_eq_run]; decide +kernel
+
+theorem early_wf : Proofs.Refine.WfApp earlyApp := { small := by decide, regs := by decide +kernel, nofwd := by decide +kernel }
+
+/-- the specification run returns -/
+theorem early_spec : (Spec.run (Proofs.Refine.specProg earlyApp)
+    { regs := Array.replicate 32 0#32, mem := Array.replicate 64 0#8 } 200).stop = .ret := by decide +kernel
+
+/-- a loop closed by a backward `j`: the jump executes twice, the second time with a hit in the branch target buffer (no
+flush, fetch is redirected by the branch unit at once):
+`li s0, 3; l1: addi a0, a0, 2; addi s0, s0, -1; beqz s0, out; j l1; out: ret` -/
+def jloopApp : Model.Seq.App :=
+  { instrs := [.li_ { rd := 8, imm := 3#32 }, .addi_ { rd := 10, rs := 10, imm := 2#32 },
+               .addi_ { rd := 8, rs := 8, imm := BitVec.ofInt 32 (-1) }, .beqz_ { rs := 8, label := "out" },
+               .j_ { label := "l1" }, .ret_ {}],
+    labels := GoMap.ofList [("l1", 4#32), ("out", 20#32)] }
+
+theorem jloop_class : RegOnlyWf jloopApp = true ∧ BranchOnly jloopApp = false := by decide
+
+theorem loop_wf : RegOnlyWf loopApp = true := by decide
+
+theorem jloop_seq : obsR (Model.Seq.runMvp1 jloopApp ⟨ctx0, 0⟩ 40).halt (Model.Seq.runMvp1 jloopApp ⟨ctx0, 0⟩ 40).final.ctx =
+    (some .ret, [0#32, 0#32, 6#32, 0#32, 0#32, 0#32]) := by decide +kernel
+
+theorem jloop_p1 : obsR (run jloopApp ctx0 1 1 5000).halt (run jloopApp ctx0 1 1 5000).final.ctx =
+    (some .ret, [0#32, 0#32, 6#32, 0#32, 0#32, 0#32]) := by
+  rw [← Proofs.Mvp60Fast.runFast_eq_run]; decide +kernel
+
+theorem jloop_p2 : obsR (run jloopApp ctx0 2 2 5000).halt (run jloopApp ctx0 2 2 5000).final.ctx =
+    (some .ret, [0#32, 0#32, 6#32, 0#32, 0#32, 0#32]) := by
+  rw [← Proofs.Mvp60Fast.runFast_eq_run]; decide +kernel
+
+theorem jloop_p4 : obsR (run jloopApp ctx0 4 4 5000).halt (run jloopApp ctx0 4 4 5000).final.ctx =
+    (some .ret, [0#32, 0#32, 6#32, 0#32, 0#32, 0#32]) := by
+  rw [← Proofs.Mvp60Fast.runFast_eq_run]; decide +kernel
+
+/-- the flushes of the run on two units: the first `j l1` misses the branch target buffer (flush), the second hits -/
+theorem jloop_flushes : (run jloopApp ctx0 2 2 5000).final.flushes = 2 := by
   rw [← Proofs.Mvp60Fast.runFast_eq_run]; decide +kernel
 
 end Proofs.Mvp60JumpWitness
